@@ -17,6 +17,6 @@ HARNESSES = {
     "get_column_complete": {"crate": "okane-core", "inject": ["core_display"], "bound": "none (loop-free, full usize domain)", "complete": True, "timeout": 600},
     "to_double_entry_signs": {"crate": "okane", "inject": ["cli_single_entry"], "bound": "one record: symbolic i64 mantissa, scale <= 4; optional transferred amount / balance / dest account; no charges, no rates", "timeout": 2400},
     "display_roundtrip_bounded": {"crate": "okane-core", "inject": ["core_pretty_decimal"], "bound": "|mantissa| < 10^7, scale <= 3, Plain and Comma3Dot", "timeout": 1800},
-    "compute_line_number_bounded": {"crate": "okane-core", "inject": ["core_parse_error"], "bound": "ASCII text <= 6 bytes over {LF,CR,space,a,;}; every pos", "timeout": 600},
-    "parse_error_new_bounded": {"crate": "okane-core", "inject": ["core_parse_error"], "bound": "ASCII text <= 6 bytes; every entry start and failure offset", "timeout": 900},
+    "compute_line_number_bounded": {"crate": "okane-core", "inject": ["core_parse_error"], "bound": "text <= 4 characters over {LF, CR, a, ;, あ(3 bytes)}; every byte position", "timeout": 600},
+    "parse_error_new_bounded": {"crate": "okane-core", "inject": ["core_parse_error"], "bound": "text <= 4 characters over {LF, CR, a, ;, あ(3 bytes)}; every entry start and failure offset on a char boundary", "timeout": 900},
 }
